@@ -48,7 +48,7 @@ func (l procLine) asm() string {
 	case "clr", "inc", "dec", "cil", "cir":
 		return fmt.Sprintf("%s r%d", l.Op, l.A)
 	case "rset":
-		return fmt.Sprintf("rset r%d %d", l.A, l.B)
+		return fmt.Sprintf("rset r%d %d", l.A, uint64(l.B))
 	case "j":
 		return fmt.Sprintf("j %d", l.A)
 	case "jz":
@@ -465,6 +465,19 @@ func runC01(r *evid.Run) {
 		transitions += tr
 		for _, p := range ps {
 			p.Arch.RSize = rs
+			// every other immediate gets the top bit of the wide register set (not in programs that read
+			// the ROM through a register: a pointer stays a data address)
+			lines := append([]procLine{}, p.Lines...)
+			pointers := false
+			for _, l := range lines {
+				pointers = pointers || l.Op == "ro2rri"
+			}
+			for li := range lines {
+				if !pointers && lines[li].Op == "rset" && li%2 == 0 && lines[li].B < 1<<16 {
+					lines[li].B = int(uint64(lines[li].B) | 1<<uint(rs-1))
+				}
+			}
+			p.Lines = lines
 			progs = append(progs, p)
 		}
 	}
